@@ -228,3 +228,237 @@ Qed.
 Print Assumptions output_not_globbed.
 Print Assumptions output_star_by_theorem.
 Print Assumptions output_star_stays.
+
+(* ================================================================== the assignment word NAME=$(c) *)
+(** [X=$(cmd)] alone on a command line is ONE untagged token; it is expanded with exactly one
+    consultation of the runner *)
+Definition aword (name c : str) : str := name ++ 61 :: 36 :: 40 :: c ++ [41].
+
+Lemma name_chars (name : str) (c0 : N) : is_name name = true -> is_alnum_us c0 = false -> ~ In c0 name.
+Proof.
+  intros Hn Hc Hin. pose proof (name_all_alnum name Hn) as H.
+  rewrite forallb_forall in H. apply H in Hin. congruence.
+Qed.
+
+Lemma aword_split (name c : str) : aword name c = (name ++ [61]) ++ dword c.
+Proof. unfold aword, dword. rewrite <- app_assoc. reflexivity. Qed.
+
+Lemma aword_notin (x : N) (name c : str) :
+  is_name name = true -> is_alnum_us x = false ->
+  x <> 61 -> x <> 36 -> x <> 40 -> x <> 41 -> ~ In x c -> ~ In x (aword name c).
+Proof.
+  intros Hn Hx H61 H36 H40 H41 Hc. rewrite aword_split. intros X.
+  apply in_app_or in X as [X|X].
+  - apply in_app_or in X as [X|[X|[]]]; [exact (name_chars name x Hn Hx X) | congruence].
+  - revert X. apply dword_notin; assumption.
+Qed.
+
+Lemma in61_aword (name c : str) : In 61 (aword name c).
+Proof. unfold aword. apply in_or_app. right. left. reflexivity. Qed.
+
+Lemma name_start_not_arith (n0 : N) : is_name_start n0 = true -> arith_char n0 = false.
+Proof.
+  intros H. destruct (arith_char n0) eqn:E; [exfalso | reflexivity].
+  unfold is_name_start, is_alpha in H. unfold arith_char, is_digit in E.
+  rewrite !orb_true_iff, !andb_true_iff, !N.leb_le, !N.eqb_eq in H.
+  rewrite !orb_true_iff, !andb_true_iff, !N.leb_le, !N.eqb_eq in E. lia.
+Qed.
+
+(* ---- 0: the early returns *)
+Lemma aword_not_arithmetic (name c : str) :
+  is_name name = true -> is_arithmetic (tokens_to_line [(TNone, aword name c)]) = false.
+Proof.
+  intros Hn. destruct name as [|n0 nr]; [discriminate|].
+  cbn [is_name] in Hn. apply andb_true_iff in Hn as [Hs _].
+  apply (is_arithmetic_false _ n0); [|apply name_start_not_arith; exact Hs].
+  apply line_has_cmd.
+  - intros ->. vm_compute in Hs. discriminate.
+  - left. reflexivity.
+Qed.
+
+(* ---- 1: expand_alias *)
+Lemma expand_alias_aword tokenize W (name c : str) :
+  aliases W (aword name c) = None ->
+  expand_alias tokenize W [(TNone, aword name c)] = [(TNone, aword name c)].
+Proof.
+  intros Ha. unfold expand_alias. cbn [alias_collect tag_is_empty tag_eqb andb].
+  assert (E1 : str_eqb (aword name c) [124] = false).
+  { apply str_eqb_neq. intros E. pose proof (in61_aword name c) as X. rewrite E in X.
+    destruct X as [X|[]]. discriminate. }
+  assert (E2 : str_eqb (aword name c) (s2l "xargs") = false).
+  { apply str_eqb_neq. intros E. pose proof (in61_aword name c) as X. rewrite E in X.
+    revert X. apply notin_dec. reflexivity. }
+  rewrite E1, E2, Ha. reflexivity.
+Qed.
+
+(* ---- 2: expand_home *)
+Lemma expand_home_aword W (name c : str) :
+  is_name name = true -> ~ In 126 c ->
+  expand_home W [(TNone, aword name c)] = [(TNone, aword name c)].
+Proof.
+  intros Hn Hc. rewrite expand_home_map. cbn [map]. unfold expand_home_tok.
+  cbn [fst snd tag_is_empty tag_eqb].
+  rewrite (strip_prefix_absent 126 (aword name c)); [reflexivity|].
+  apply aword_notin; try assumption; try discriminate. reflexivity.
+Qed.
+
+(* ---- 3: expand_env: the only dollar of the word is followed by an open paren *)
+Lemma expand_env_once_pre_dword W (p c : str) :
+  ~ In 36 p -> ~ In 36 c -> expand_env_once W (p ++ dword c) = p ++ dword c.
+Proof.
+  intros Hp Hc. induction p as [|x p IH].
+  - apply expand_env_once_dword. exact Hc.
+  - unfold expand_env_once in *. cbn [app]. rewrite once_go_lit.
+    + rewrite IH by (intros X; apply Hp; right; exact X). reflexivity.
+    + apply N.eqb_neq. intros X. apply Hp. left. exact X.
+Qed.
+
+Lemma expand_env_aword W (name c : str) :
+  is_name name = true -> ~ In 36 c ->
+  expand_env W [(TNone, aword name c)] = [(TNone, aword name c)].
+Proof.
+  intros Hn Hc. rewrite expand_env_map. cbn [map]. unfold expand_env_tok. cbn [fst snd].
+  assert (E : expand_env_once W (aword name c) = aword name c).
+  { rewrite aword_split. apply expand_env_once_pre_dword; [|exact Hc].
+    intros X. apply in_app_or in X as [X|[X|[]]]; [|discriminate].
+    revert X. apply name_chars; [exact Hn | reflexivity]. }
+  rewrite E. destruct (env_in_tagged_token (aword name c) _); reflexivity.
+Qed.
+
+(* ---- 4: brace and glob *)
+Lemma aword_still (name c : str) :
+  is_name name = true -> ~ In 42 c -> ~ In 123 c -> still (TNone, aword name c).
+Proof.
+  intros Hn H42 H123. right. cbn [snd].
+  split; apply aword_notin; try assumption; try discriminate; reflexivity.
+Qed.
+
+(* ---- 5: command substitution *)
+Lemma subst_dot_aword W (name c : str) :
+  is_name name = true -> ~ In 96 c ->
+  subst_dot W [(TNone, aword name c)] [] = Ok ([(TNone, aword name c)], []).
+Proof.
+  intros Hn Hc. unfold subst_dot. cbn [dot_collect].
+  rewrite (dot_split_none (aword name c)); [reflexivity|].
+  apply aword_notin; try assumption; try discriminate. reflexivity.
+Qed.
+
+Lemma has_dollar_paren_pre (a b : str) : ~ In 36 a -> has_dollar_paren (a ++ b) = has_dollar_paren b.
+Proof.
+  induction a as [|x a IH]; intros Ha; [reflexivity|].
+  cbn [app]. assert (Ha' : ~ In 36 a) by (intros X; apply Ha; right; exact X).
+  specialize (IH Ha'). destruct (a ++ b) as [|y l] eqn:E.
+  - apply app_eq_nil in E as [_ ->]. reflexivity.
+  - rewrite has_dollar_paren_cons2.
+    assert (Ex : (x =? 36) = false) by (apply N.eqb_neq; intros X; apply Ha; left; exact X).
+    rewrite Ex. cbn [andb orb]. exact IH.
+Qed.
+
+Lemma name_eq_no36 (name : str) : is_name name = true -> ~ In 36 (name ++ [61]).
+Proof.
+  intros Hn X. apply in_app_or in X as [X|[X|[]]]; [|discriminate].
+  revert X. apply name_chars; [exact Hn | reflexivity].
+Qed.
+
+Lemma aword_line (name c : str) : aword name c = (name ++ [61]) ++ [36; 40] ++ c ++ [41] ++ [] ++ [].
+Proof. unfold aword. rewrite <- app_assoc. reflexivity. Qed.
+
+Lemma aword_no39 (name c : str) : is_name name = true -> ~ In 39 c -> ~ In 39 (aword name c).
+Proof. intros Hn Hc. apply aword_notin; try assumption; try discriminate. reflexivity. Qed.
+
+Lemma aword_line3 (name c : str) : aword name c = (name ++ [61]) ++ [36; 40] ++ c ++ [41] ++ [].
+Proof. unfold aword. rewrite <- app_assoc. reflexivity. Qed.
+
+Lemma should_do_aword (name c : str) :
+  is_name name = true -> c <> [] -> ~ In 41 c -> ~ In 39 c -> should_do_dollar (aword name c) = true.
+Proof.
+  intros Hn Hne H41 H39. rewrite (aword_line3 name c).
+  apply should_do_true; [exact Hne | exact H41 |].
+  right. intros X. apply (aword_no39 name c Hn H39). rewrite (aword_line3 name c). exact X.
+Qed.
+
+Lemma dollar_loop_aword W (name c : str) f :
+  is_name name = true -> c <> [] -> ~ In 41 c -> ~ In 10 c -> ~ In 39 c ->
+  has_dollar_paren (trim (oracle_out W c)) = false ->
+  dollar_loop (S (S f)) W (aword name c) [] = Ok (Some (name ++ 61 :: trim (oracle_out W c)), [c]).
+Proof.
+  intros Hn Hne H41 H10 H39 Ho. rewrite (aword_line name c).
+  etransitivity.
+  - apply dollar_loop_splices_gen; try assumption; try (intros []).
+    + apply has_dollar_paren_no_dollar. apply name_eq_no36. exact Hn.
+    + left. reflexivity.
+    + right. intros X. apply (aword_no39 name c Hn H39). rewrite (aword_line name c). exact X.
+    + cbn [app]. rewrite app_nil_r.
+      rewrite has_dollar_paren_pre; [exact Ho | apply name_eq_no36; exact Hn].
+  - rewrite <- app_assoc. cbn [app]. rewrite app_nil_r. reflexivity.
+Qed.
+
+Lemma subst_dollar_aword W (name c : str) f :
+  is_name name = true -> c <> [] -> ~ In 41 c -> ~ In 10 c -> ~ In 39 c ->
+  has_dollar_paren (trim (oracle_out W c)) = false ->
+  subst_dollar (S (S f)) W [(TNone, aword name c)] []
+  = Ok ([(TNone, name ++ 61 :: trim (oracle_out W c))], [c]).
+Proof.
+  intros Hn Hne H41 H10 H39 Ho. rewrite subst_dollar_eq.
+  cbn [dollar_pass tag_eqb orb].
+  rewrite (should_do_aword name c Hn Hne H41 H39). cbn [negb].
+  rewrite (dollar_loop_aword W name c f Hn Hne H41 H10 H39 Ho).
+  reflexivity.
+Qed.
+
+(* ---- assembly *)
+Theorem assignment_substituted_once : forall W f name c,
+  is_name name = true ->
+  aliases W (aword name c) = None ->
+  c <> [] -> ~ In 36 c -> ~ In 123 c -> ~ In 42 c -> ~ In 96 c -> ~ In 41 c -> ~ In 10 c -> ~ In 126 c -> ~ In 39 c ->
+  has_dollar_paren (trim (oracle_out W c)) = false -> ~ In 123 (trim (oracle_out W c)) ->
+  do_expansion_log Tokenizer.parse_line W (S (S f)) [(TNone, aword name c)]
+  = Ok ([(TNone, name ++ 61 :: trim (oracle_out W c))], [c]).
+Proof.
+  intros W f name c Hn Ha Hne H36 H123 H42 H96 H41 H10 H126 H39 Hdp Ho123.
+  assert (Hstill : Forall still [(TNone, aword name c)]).
+  { constructor; [|constructor]. apply aword_still; assumption. }
+  unfold do_expansion_log.
+  rewrite (aword_not_arithmetic name c Hn).
+  change (is_export_prompt [(TNone, aword name c)]) with false.
+  cbn zeta.
+  rewrite (expand_alias_aword _ W name c Ha).
+  rewrite (expand_home_aword W name c Hn H126).
+  rewrite (expand_env_aword W name c Hn H36).
+  rewrite (expand_brace_still _ Hstill). cbn [bind].
+  rewrite (expand_glob_still W _ Hstill). cbn [bind].
+  unfold do_command_substitution.
+  rewrite (subst_dot_aword W name c Hn H96). cbn [bind fst snd].
+  rewrite (subst_dollar_aword W name c f Hn Hne H41 H10 H39 Hdp). cbn [bind fst snd].
+  rewrite expand_brace_range_no_brace; [reflexivity|].
+  constructor; [|constructor]. cbn [snd].
+  intros X. apply in_app_or in X as [X|[X|X]]; [|discriminate|exact (Ho123 X)].
+  revert X. apply name_chars; [exact Hn | reflexivity].
+Qed.
+
+(** non-vacuity: [X=$(x)] alone, and after another assignment; the runner is consulted once, with [x] *)
+Definition W_out : World :=
+  mkWorld (fun _ => None) (fun _ => None) 0%Z 1%Z (s2l "/h") (fun _ => Some [])
+          (fun l => if str_eqb l (s2l "x") then Some (s2l "out") else None) (fun _ => None).
+
+Example assignment_examples :
+  do_expansion_log Tokenizer.parse_line W_out 4 [(TNone, s2l "X=$(x)")] = Ok ([(TNone, s2l "X=out")], [s2l "x"])
+  /\ do_expansion_log Tokenizer.parse_line W_out 4 [(TNone, s2l "Y=7"); (TNone, s2l "X=$(x)")]
+     = Ok ([(TNone, s2l "Y=7"); (TNone, s2l "X=out")], [s2l "x"]).
+Proof. split; vm_compute; reflexivity. Qed.
+
+(** the same through the theorem: its hypotheses are satisfiable *)
+Example assignment_by_theorem : forall f,
+  do_expansion_log Tokenizer.parse_line W_out (S (S f)) [(TNone, s2l "X=$(x)")]
+  = Ok ([(TNone, s2l "X=out")], [s2l "x"]).
+Proof.
+  intros f.
+  change (s2l "X=$(x)") with (aword [88] [120]).
+  change (s2l "X=out") with ([88] ++ 61 :: trim (oracle_out W_out [120])).
+  apply assignment_substituted_once; try (apply notin_dec; reflexivity); try reflexivity.
+  discriminate.
+Qed.
+
+Print Assumptions assignment_substituted_once.
+Print Assumptions assignment_examples.
+Print Assumptions assignment_by_theorem.
